@@ -332,7 +332,7 @@ def read_provenance(dbfile):
     return toks, prov, ports
 
 
-async def run_once(desc, seed=None, K=3, timeout=60.0, gate=None, keep_db=False, slow_ports=()):
+async def run_once(desc, seed=None, K=3, timeout=60.0, gate=None, keep_db=False, slow_ports=(), settle_timeout=30.0):
     """Execute `desc` for real.  Returns dict(events, result|error, outputs, token_lists, steps, provenance...)."""
     import random
 
@@ -388,10 +388,14 @@ async def run_once(desc, seed=None, K=3, timeout=60.0, gate=None, keep_db=False,
         except Exception as e:
             out["result"], out["error"] = None, type(e).__name__
             rec.ev.append({"ev": "raise"})
-        # let dangling tasks surface
+        # After run() returned or raised the steps that are still running must end by themselves (the model proves
+        # EveryStepEnds): give them time, then anything still pending is a dangling task.
+        me = asyncio.current_task()
+        others = [t for t in asyncio.all_tasks() if t is not me and not t.done()]
+        if others:
+            await asyncio.wait(others, timeout=settle_timeout)
         for _ in range(5):
             await asyncio.sleep(0)
-        me = asyncio.current_task()
         out["pending_tasks"] = sorted(t.get_name() for t in asyncio.all_tasks() if t is not me and not t.done())
         tokval = C["tokval"]
         from streamflow.workflow.token import TerminationToken
